@@ -2,8 +2,8 @@ SPEC = {
     "id": "C31",
     "props_module": "NDB.Props.C31",
     "corr_modules": ["NDB.Corr.C31"],
-    "theorems": ["C31_search_sound", "C31_search_keeps_sound", "C31_deleted_refuted", "C31_search_existing",
-                 "C31_reopen_refuted", "C31_small_exact_checked", "C31_reopen_same_checked"],
+    "theorems": ["C31_search_sound", "C31_search_keeps_sound", "C31_search_vector_sound", "C31_search_vector_live",
+                 "C31_reopen_refuted", "C31_small_exact_checked", "C31_small_exact_full", "C31_reopen_same_checked", "C31_reopen_same_small"],
     "allowed_axioms": [],
     "harness_pkg": "hx_hnsw",
     "harness_bin": "c31",
@@ -26,13 +26,14 @@ SPEC = {
     "assumptions": [
         "theorem C31_search_sound quantifies over every history of the model (any levels, re-insertions, deletions, reopens) and every query/k for which the search answers (Ok); "
         "'stored vector' means a vector that was set for that node (the latest one as long as the cache holds it; see K-C31-stale-vector)",
-        "exactness for small indexes and invariance under reopen are proved for every state that passes an executable check (small_check / reopen_check); that the reachable states "
-        "of clean histories (no id inserted twice; for exactness also no reopen, <= 2m+1 vectors, <= ef_search, graph tree not split) pass the check is evaluated inside Coq on every generated case, "
-        "not proved (full statements kept as C31_small_exact_full_statement / C31_reopen_same_full_statement)",
+        "exactness for <= 2m+1 vectors (C31_small_exact_full) and invariance under reopen (C31_reopen_same_small) are theorems for clean histories: no node gets a vector twice, no earlier reopen, "
+        "ids are u32, and the graph tree (for reopen also the vector tree) still is a single page -- with the default m = 16 the graph tree reaches its second page after roughly 480 neighbour-list writes, "
+        "i.e. inside the 33-vector regime only for histories with many layers; beyond one page the duplicate-key reads of the B-tree (K-C26-dups) make the general statements false or unproved, "
+        "and the check falls back to the theorems for states passing the executable small_check / reopen_check, which the correspondence evaluates on every generated case",
     ],
     "manifest": {
         "category": "proof",
-        "text": "Proved for all reachable states of the faithful HNSW model (any insert history with the drawn levels as input, re-insertions, deletions, reopens; page-level B-tree stores with duplicate keys): a search returns at most k results, pairwise different nodes, in non-decreasing distance, each node has a vector that was set and its squared distance is exact for such a vector. Refuted with witnesses: deleted nodes are returned (K-C31-deleted, conditional theorem for histories without deletion); a reopen can change the result after a vector was set twice (K-C31-stale-vector, 511-insert witness replayed on the implementation). Proved for every state passing an executable check: the search equals the brute-force k nearest (small_check: connected layer 0, all vectors cached, |S| <= ef_search), and reopening changes no search result (reopen_check: meta and cached vectors read back from the trees). That reachable clean states pass these checks is sampled inside Coq on every generated case, not proved. Two defects repaired in /repo (stale B-tree roots after reopen; k = 0).",
+        "text": "Proved for all reachable states of the faithful HNSW model (any insert history with the drawn levels as input, re-insertions, deletions, reopens; page-level B-tree stores with duplicate keys): a search returns at most k results, pairwise different nodes, in non-decreasing distance, each node has a vector that was set and its squared distance is exact for such a vector. The engine-level search (all index candidates, deleted nodes left out, first k) has the same guarantees and returns no deleted node, for every reachable state (C31_search_vector_sound; the defect K-C31-deleted was repaired). Exactness for at most 2m+1 vectors is a theorem for every clean history (no node gets a vector twice, no reopen, graph tree not split): C31_small_exact_full. Unchanged-by-reopen is a theorem for the same clean small class while neither B-tree has split (C31_reopen_same_small). Refuted with witness: a reopen can change the result after a vector was set twice (K-C31-stale-vector, 511-insert witness replayed on the implementation). Proved for every state passing an executable check: the search equals the brute-force k nearest (small_check: connected layer 0, all vectors cached, |S| <= ef_search), and reopening changes no search result (reopen_check: meta and cached vectors read back from the trees). That reachable clean states pass these checks is sampled inside Coq on every generated case, not proved. Three defects repaired in /repo (stale B-tree roots after reopen; k = 0; deleted nodes returned).",
         "design_ref": "DESIGN.md §5 C31",
         "level_note": "Trusted: Coq kernel; hand-written model tied to the code by sampled correspondence (levels taken from a cfg-guarded hook); f32 rounding avoided by input restriction.",
         "technique": "Rocq proof (store invariant, search_layer loop invariants, BFS-closure completeness argument, relational cache-independence proof) + vm_compute witnesses + model/implementation correspondence on generated histories + direct brute-force search",
